@@ -29,6 +29,7 @@ import (
 	"go/token"
 	"os"
 	"path/filepath"
+	"sort"
 	"strings"
 )
 
@@ -569,6 +570,16 @@ func irFile(dir string, names []string, ns string) string {
 		emit("removeFirst", pick("RemoveFirst"), false)
 		emit("removeLast", pick("RemoveLast"), false)
 		emit("clear", pick("clear", "Clear"), false)
+		for _, acc := range [][2]string{{"Size", "size"}, {"IsEmpty", "isEmpty"}, {"IsFull", "isFull"}, {"GetFirstKey", "firstKey"}, {"GetLastKey", "lastKey"},
+			{"GetFirstValue", "firstValue"}, {"GetLastValue", "lastValue"}} {
+			fd := ms[acc[0]]
+			if fd == nil && strings.HasSuffix(acc[0], "Key") { // the sets call them GetFirst / GetLast
+				fd = ms[strings.TrimSuffix(acc[0], "Key")]
+			}
+			if fd != nil {
+				sb.WriteString(fmt.Sprintf("/-- %s.%s -/\ndef %s_%s : List ASt :=\n  %s\n\n", n, fd.Name.Name, n, acc[1], accessorIR(fd)))
+			}
+		}
 		if ms["SetMax"] != nil {
 			sb.WriteString(fmt.Sprintf("/-- %s.SetMax -/\ndef %s_setMax : List CSt :=\n  %s\n\n", n, n, setterIR(ms["SetMax"])))
 		}
@@ -585,6 +596,27 @@ func irFile(dir string, names []string, ns string) string {
 		if ms["Sort"] != nil {
 			sb.WriteString(fmt.Sprintf("/-- %s.Sort -/\ndef %s_sort : SortFacts :=\n  %s\n\n", n, n, sortFacts(ms["Sort"], n)))
 		}
+		ens, ems := enumTypes(f)
+		var hasMores, nexts []string
+		for _, en := range ens {
+			var mns []string
+			for mn := range ems[en] {
+				if mn == "HasMoreElements" || strings.HasPrefix(mn, "Next") {
+					mns = append(mns, mn)
+				}
+			}
+			sort.Strings(mns)
+			for _, mn := range mns {
+				sb.WriteString(fmt.Sprintf("/-- %s.%s (enumerator object of %s) -/\ndef %s_%s_%s : List ESt :=\n  %s\n\n", en, mn, n, n, en, mn, enumIR(ems[en][mn])))
+				if mn == "HasMoreElements" {
+					hasMores = append(hasMores, fmt.Sprintf("%s_%s_%s", n, en, mn))
+				} else {
+					nexts = append(nexts, fmt.Sprintf("%s_%s_%s", n, en, mn))
+				}
+			}
+		}
+		sb.WriteString(fmt.Sprintf("/-- every HasMoreElements method of the enumerator objects of %s -/\ndef %s_enumHasMore : List (List ESt) :=\n  [%s]\n\n", n, n, strings.Join(hasMores, ", ")))
+		sb.WriteString(fmt.Sprintf("/-- every Next* method of the enumerator objects of %s -/\ndef %s_enumNext : List (List ESt) :=\n  [%s]\n\n", n, n, strings.Join(nexts, ", ")))
 		sb.WriteString(fmt.Sprintf("/-- %s.rehash -/\ndef %s_rehash : RehashFacts :=\n  %s\n\n", n, n, rehashFacts(ms["rehash"])))
 	}
 	sb.WriteString("end " + ns + "\n")
